@@ -2,6 +2,7 @@
 # runs the quick (or given tier) check of every listed property, a few at a time; prints one line each
 tier=${TIER:-quick}
 props="$@"
-[ -z "$props" ] && props=$(python3 -c "import json;print(' '.join(c['property_id'] for c in json.load(open('/verif/MANIFEST.json'))['checks']))")
-mkdir -p /verif/_work/logs
-printf "%s\n" $props | xargs -P ${PAR:-4} -I{} bash -c "cd /verif && ./check {} --tier $tier > /verif/_work/logs/{}.log 2>&1; echo {} exit=\$? \$(tail -1 /verif/_work/logs/{}.log)"
+[ -z "$props" ] && props=$(python3 -c "import json;print(' '.join(c['property_id'] for c in json.load(open('MANIFEST.json'))['checks']))")
+HERE="$(cd "$(dirname "$0")/.." && pwd)"
+mkdir -p $HERE/_work/logs
+printf "%s\n" $props | xargs -P ${PAR:-4} -I{} bash -c "cd $HERE && ./check {} --tier $tier > $HERE/_work/logs/{}.log 2>&1; echo {} exit=\$? \$(tail -1 $HERE/_work/logs/{}.log)"
